@@ -370,7 +370,7 @@ pub fn run(ctx: &Ctx) -> i32 {
     if let Some(p) = &ctx.args.replay {
         let j = parse_json(&std::fs::read_to_string(p).expect("replay file")).expect("json");
         let c = j.get("case").unwrap();
-        if c.get("flood").is_some() {
+        if c.get("flood").and_then(|f| f.as_u64()) == Some(1) {
             ctx.eval(1);
             run_flood_case(ctx, c.u("seed"), c.u("idx"), &st);
             ctx.nontrivial(1);
@@ -386,6 +386,7 @@ pub fn run(ctx: &Ctx) -> i32 {
         ctx.nontrivial(2);
         return ctx.finish("replay of one recorded case", &[], vec![]);
     }
+    crashlog::set_case_fields(&["seed", "idx", "family", "max_kt", "max_t", "flood"]);
     let n = ctx.args.ex_u64("n", ctx.args.pick(60000, 600000)) as usize;
     let (max_kt, max_t) = (ctx.args.ex_u64("max_kt", 320) as usize, ctx.args.ex_u64("max_t", 1024) as usize);
     par_for(n, |i| {
@@ -395,6 +396,7 @@ pub fn run(ctx: &Ctx) -> i32 {
         // 1 in 10 cases uses larger blocks (crossing the dense/sparse switch at K'=250 more often)
         let mk = if i % 10 == 0 { max_kt * 4 } else { max_kt / 4 };
         let mt = if i % 10 == 0 { 64 } else { max_t };
+        crashlog::note(crashlog::CASE, &[ctx.seed(), i as u64, 0, mk as u64, mt as u64, 0]);
         let c = gen_case(ctx.seed(), i as u64, 0, mk, mt);
         let rj = case_json(ctx.seed(), i as u64, 0, mk, mt, &c);
         if i < 3 {
@@ -408,6 +410,7 @@ pub fn run(ctx: &Ctx) -> i32 {
     });
     let nbig = ctx.args.ex_u64("nbig", ctx.args.pick(3, 40)) as usize;
     par_for_threads(threads().min(8), nbig, |i| {
+        crashlog::note(crashlog::CASE, &[ctx.seed(), i as u64, 1, 0, 0, 0]);
         let c = gen_case(ctx.seed(), i as u64, 1, 0, 0);
         let rj = case_json(ctx.seed(), i as u64, 1, 0, 0, &c);
         run_case(ctx, &c, rj, &st);
@@ -416,6 +419,7 @@ pub fn run(ctx: &Ctx) -> i32 {
     });
     let nhuge = ctx.args.ex_u64("nhuge", ctx.args.pick(60, 1500)) as usize;
     par_for(nhuge, |i| {
+        crashlog::note(crashlog::CASE, &[ctx.seed(), i as u64, 2, 0, 0, 0]);
         let c = gen_case(ctx.seed(), i as u64, 2, 0, 0);
         let rj = case_json(ctx.seed(), i as u64, 2, 0, 0, &c);
         run_case(ctx, &c, rj.clone(), &st);
@@ -427,6 +431,7 @@ pub fn run(ctx: &Ctx) -> i32 {
     if ctx.args.ex("n").is_none() {
         par_for(ctx.args.pick(24, 400), |i| {
             if !ctx.too_many_violations() {
+                crashlog::note(crashlog::CASE, &[ctx.seed(), i as u64, 0, 0, 0, 1]);
                 run_flood_case(ctx, ctx.seed(), i as u64, &st);
                 ctx.eval(1);
             }
@@ -446,6 +451,7 @@ pub fn run(ctx: &Ctx) -> i32 {
         if crate::golden::TABLE2[row].0 as usize > kprime_max && (row as u64 + ctx.seed()) % 16 != 0 {
             return;
         }
+        crashlog::note(crashlog::CASE, &[ctx.seed(), i as u64, 3, 0, 0, 0]);
         let c = gen_case(ctx.seed(), i as u64, 3, 0, 0);
         let rj = case_json(ctx.seed(), i as u64, 3, 0, 0, &c);
         run_case(ctx, &c, rj.clone(), &st);
